@@ -293,10 +293,14 @@ def so2_rand(r):
     return v if v < PI else -PI
 
 
-SO2_ADV = ["to-minus-pi", "from-minus-pi", "seam-close", "seam-wide", "pi-ulp", "half-turn", "coincident", "zero"]
+SO2_ADV = ["to-minus-pi", "from-minus-pi", "seam-close", "seam-wide", "pi-ulp", "half-turn", "coincident", "zero", "round-to-pi"]
+# from-values for which from + ((pi - 1ulp) - from) * 1.0 rounds to exactly +pi in the SHORT branch (the F61 family)
+ROUND_TO_PI = [0.7186777137621367, 0.7294028182616896, 0.6278140543261566, 0.8020298808435384, 0.2183890025040236, 1.01159838372536]
 
 
 def so2_pair(r, cls):
+    if cls == "round-to-pi":
+        return r.choice(ROUND_TO_PI), dn(PI)
     if cls == "to-minus-pi":                      # the F4 family: any from > 0, to = -pi
         return r.choice([r.uniform(0.01, 3.1), PI / 2, dn(PI), 1.5]), -PI
     if cls == "from-minus-pi":
@@ -789,7 +793,7 @@ MOBIUS_ROUNDING = ("mobius cylinder branch: rounding carries u onto the seam, SO
 
 def mobius_seam_rounding(fu, bu, tt):
     """Mobius cylinder branch (|du| <= pi) whose SO(2) value from + diff*t rounds onto / past the seam, so that the
-    (repaired) SO(2) clause wraps it to the other side (F156)"""
+    (repaired) SO(2) clause wraps it to the other side (F159)"""
     d = bu - fu
     if abs(d) > PI:
         return False
@@ -1393,7 +1397,8 @@ MANIFEST = {
             "the arcLength clamp band, weight-irrelevance, fixed coordinates, a general soundness theorem for the aliasing rw-set "
             "obligation; arbitrarily nested weighted compounds by structural induction), "
             "tied to the C++ by bit-exact lock-step runs of the real libompl against the compiled model with the output aliased "
-            "to neither / from / to, after histories (bounds / weights changed in place after setup), plus the property itself evaluated "
+            "to neither / from / to (the model follows the tree: SO(2) with both branches wrapped, discrete with the double difference; "
+            "former variants are kept as witnesses, an implementation equal to one of them where they differ is a violation), after histories (bounds / weights changed in place after setup), plus the property itself evaluated "
             "on the implementation's outputs per component.",
     "note": "Trusted: Lean kernel, the three standard axioms, the hand-written model outside the inputs the correspondence explored, "
             "the harness and the python oracle. Theorems are over the reals (rounding executed, not verified); SO(3) results need exactly-unit "
